@@ -27,9 +27,9 @@ class MachineryError(Exception):
 
 def _tlc_cmd(module, cfg, workers, metadir, extra=(), heap='3g', gcthreads=None):
     if workers == 1:        # trace-validation shard: a linear chain, many JVMs side by side
-        cmd = ['java', '-XX:+UseSerialGC', '-XX:-UsePerfData', '-Xmx' + heap]
+        cmd = ['java', '-XX:+UseSerialGC', '-XX:-UsePerfData', '-Xss512m', '-Xmx' + heap]
     else:
-        cmd = ['java', '-XX:+UseParallelGC', '-Xmx' + heap]
+        cmd = ['java', '-XX:+UseParallelGC', '-Xss512m', '-Xmx' + heap]
         if gcthreads:
             cmd.append('-XX:ParallelGCThreads=%d' % gcthreads)
     cmd += ['-cp', TLA_CP, 'tlc2.TLC', '-workers', str(workers), '-metadir', metadir,
@@ -83,6 +83,15 @@ def run_tlc(module, cfg, workdir, workers=NCPU, env=None, extra=(), timeout=3600
     res = parse_tlc(out)
     res['rc'] = rc
     return res, out
+
+
+def _nonull(x):
+    """TLC's JSON module cannot read null: drop record fields that are None, write None inside lists as the string 'None'"""
+    if isinstance(x, dict):
+        return {k: _nonull(v) for k, v in x.items() if v is not None}
+    if isinstance(x, (list, tuple)):
+        return ['None' if v is None else _nonull(v) for v in x]
+    return x
 
 
 class Ctx:
@@ -193,7 +202,7 @@ class Ctx:
             of = os.path.join(d, 'out_%d.json' % i)
             with open(tf, 'w') as f:
                 for ev in shards[i]:
-                    f.write(json.dumps(ev, separators=(',', ':')) + '\n')
+                    f.write(json.dumps(_nonull(ev), separators=(',', ':')) + '\n')
             e = {'TRACE_FILE': tf, 'OUT_FILE': of}
             if env:
                 e.update(env)
